@@ -83,3 +83,13 @@ PLAN["C13"] = dict(quick=["cold13", "twin"], thorough=["cold13", "twin"])
 
 PLAN["C19"]["quick"] = PLAN["C19"]["quick"] + ["conc"]
 PLAN["C19"]["thorough"] = PLAN["C19"]["thorough"] + ["conc"]
+
+SUITES["fuzz"] = dict(mc="MC_Seq")
+for _p in ("C01", "C03", "C04", "C05", "C18"):
+    PLAN[_p]["quick"] = PLAN[_p]["quick"] + ["fuzz"]
+    PLAN[_p]["thorough"] = PLAN[_p]["thorough"] + ["fuzz"]
+for _p in ("C02", "C17"):
+    PLAN[_p]["thorough"] = PLAN[_p]["thorough"] + ["fuzz"]
+# keep the quick tier of the widest checks affordable when nothing is cached
+PLAN["C01"]["quick"] = ["unary", "two", "flat", "subs", "group", "fuzz"]
+PLAN["C18"]["quick"] = ["two", "flat", "subs", "tsubs", "fuzz"]
